@@ -134,6 +134,8 @@ def candEntries : List (String × Entry) :=
     ("badcap",     { cap := .badMax }),
     ("negfrom",    { fromNeg := true }),
     ("badkey",     { keyBad := true }),
+    ("heldkey",    { lockHeld := true }),
+    ("name65k",    { nameLong := true }),
     ("valid",      {}),
     ("enginepanic", { engine := .panics }),
     ("engineerr",  { engine := .err .internal }) ]
